@@ -75,6 +75,7 @@ fn with_reg<R>(f: impl FnOnce(&mut HashMap<usize, StreamState>) -> R) -> R {
 pub fn install() {
 	INSTALL.call_once(|| {
 		kira::verif::set_hook(Some(Arc::new(|site, id, _b| match site {
+			"clock_load_ticks" | "clock_load_fraction" | "clock_store_ticks" | "clock_store_fraction" => super::clocksched::on_hook(site),
 			"decode_loop" => {
 				TOTAL_LOOPS.fetch_add(1, Ordering::Relaxed);
 				if with_reg(|r| entry(r, id).abandoned) {
